@@ -56,13 +56,18 @@ pub fn scenario(ch: &mut Chooser, thorough: bool) -> Exec {
     let local_kind = *ch.of("local_connector_uses", &[Where::LOwn, Where::LLo]);
     let kinds = [Where::X, Where::X, local_kind];
     let nconn = kinds.len();
-    let starts: Vec<usize> = (0..nconn).map(|_| ch.choose("connector_start_round", 2)).collect();
+    let starts: Vec<usize> = (0..nconn).map(|_| ch.choose("connector_start_round", if thorough { 3 } else { 2 })).collect();
     // cancel rounds are relative to the start round (a connect cannot be cancelled before it exists)
-    let cancels: Vec<Option<usize>> = (0..nconn).map(|i| ch.of("connector_cancelled_after_rounds", &[None, Some(1usize), Some(3)]).map(|d| starts[i] + d)).collect();
-    let gate = *ch.of("accept_from_round", &[0usize, 2, 5]);
-    let ldrop = *ch.of("listener_dropped_at_round", &[None, Some(1), Some(3)]);
+    let cancels: Vec<Option<usize>> = (0..nconn).map(|i| ch.of("connector_cancelled_after_rounds", if thorough { &[None, Some(1usize), Some(2), Some(3)][..] } else { &[None, Some(1usize), Some(3)][..] }).map(|d| starts[i] + d)).collect();
+    let gate = *ch.of("accept_from_round", if thorough { &[0usize, 1, 2, 3, 5][..] } else { &[0usize, 2, 5][..] });
+    let ldrop = *ch.of("listener_dropped_at_round", if thorough { &[None, Some(1), Some(2), Some(3), Some(4)][..] } else { &[None, Some(1), Some(3)][..] });
     let rebind = ldrop.is_some() && ch.flag("listener_rebinds_two_rounds_later");
     let unknown_target = ch.flag("extra_connect_to_unknown_address_and_closed_port");
+    // a local connector whose SYN reaches the host in the very step in which the listener is
+    // bound again races with that bind inside the step: the property leaves the order open
+    if rebind && (0..nconn).any(|i| kinds[i] != Where::X && Some(starts[i] + 1) == ldrop.map(|d| d + 2)) {
+        return Exec { outcome: 7, violation: None, features: vec!["skipped-intra-step-race"] };
+    }
 
     let mut b = builder(1);
     b.tcp_capacity(8);
